@@ -209,7 +209,7 @@ def project(pid, op, prev_m, prev_i, sm, si):
     def texts(sl): return [None if x is None else x['text'] for x in sl]
     def fields(sl, keys): return [None if x is None else tuple(x[k] for k in keys) for x in sl]
     full = lambda o, e, sl: (o, e, fields(sl, ('kind', 'text', 'cap', 'id', 'rc')))
-    if pid in ('C01', 'C20'):
+    if pid in ('C01', 'C20', 'C14'):
         return (om, texts(slm)), (oi, texts(sli))
     if pid == 'C02':
         sel = lambda sl: [x for k, x in enumerate(fields(sl, ('kind', 'text', 'id'))) if k != tgt and k < len(sl) - (0 if tgt is not None else 1)]
@@ -268,6 +268,23 @@ def project(pid, op, prev_m, prev_i, sm, si):
             return full(om, em, slm), full(oi, ei, sli)
         return None
     return full(om, em, slm), full(oi, ei, sli)
+
+def extra_props(op, name):
+    """monitors speak for further properties depending on the operation they fired on"""
+    if op is None or len(op) < 3:
+        return []
+    n = op[2]
+    out = []
+    if name in ('text_mismatch', 'ret_mismatch', 'utf8_invalid', 'panic_other', 'process_abort'):
+        if n == 'from_int':
+            out += ['C15'] if op[3] in ('f32', 'f64') else ['C14']
+        if n in ('display', 'from_bool', 'from_char') or (n in ('from_str', 'clone') and len(op) > 3 and op[3] == 'tls'):
+            out += ['C15']
+        if n in ('collect_chars', 'collect_strs', 'extend_chars', 'extend_strs', 'retain', 'display', 'write_fmt'):
+            out += ['C18']
+    if name in ('inline_alloc', 'ctor_alloc') and n == 'from_int':
+        out += ['C14']
+    return out
 
 # ------------------------------------------------------------------------------------------------ property table
 # profile mix, number of generated cases (quick, thorough), the monitors that speak for the property
@@ -400,7 +417,14 @@ def explore(root, pid, res, case_text, label, stats):
         stats['outcomes'][o.split(':')[0]] = stats['outcomes'].get(o.split(':')[0], 0) + 1
     # monitors: the property predicate evaluated on the real run
     seen = set()
+    opcache = {}
     for (cid, step, name, props, detail) in mons:
+        if cid in cases and cid not in opcache:
+            opcache[cid] = case_ops(cases[cid])
+        ops_c = opcache.get(cid, [])
+        props = list(props) + extra_props(ops_c[step] if step < len(ops_c) else None, name)
+        if pid == 'C20' and any(x in props for x in ('C01', 'C02', 'C03')):
+            props.append('C20')
         if pid in props and cid not in seen:
             seen.add(cid)
             stats['monitor_failures'] += 1
@@ -438,11 +462,7 @@ def explore(root, pid, res, case_text, label, stats):
     if not res.samples and order:
         res.samples.append(cases[order[len(order) // 2]].strip().splitlines()[:14])
 
-def decide(root, pid, tier, seed, replay=None):
-    res = Result(pid, tier, seed)
-    b = Build(root)
-    st = b.run()
-    # ---- proof obligations
+def base_obligations(root, pid, res, st):
     res.oblige('tieA:translate', st['translate']['ok'], st['translate']['msg'] if not st['translate']['ok'] else '')
     res.oblige('coq:theories', st['coq_theories']['ok'], st['coq_theories'].get('msg', '')[-800:])
     ps = st['props'].get(pid)
@@ -459,8 +479,35 @@ def decide(root, pid, tier, seed, replay=None):
     res.oblige('model:extraction+ocaml build', st['model']['ok'], st['model'].get('msg', '')[-500:])
     res.oblige('harness:cargo build (hooks on)', st['harness']['ok'], st['harness'].get('msg', '')[-800:])
     res.cov['theorems'] = nthm
+
+def new_stats():
+    return dict(cases=0, steps=0, compared=0, disagreements=0, monitor_failures=0, outcomes={}, ops={}, nontrivial=set(), disagree_samples=[])
+
+def finish_without_search(root, pid, res, stats):
+    failed_obl = [o for o in res.obligations if not o[1]]
+    if not res.violations:
+        if failed_obl:
+            txt = 'property %s: obligations that no longer check on this tree\n' % pid
+            for n, ok, d in failed_obl:
+                txt += '- %s\n    %s\n' % (n, d.replace('\n', '\n    '))
+            txt += '\nno failing input found by the monitors in %d cases / %d steps\n' % (stats['cases'], stats['steps'])
+            rp = write_replay(root, pid, 'obligation', txt)
+            res.violations.append(('obligation failed: ' + failed_obl[0][0], rp, False, 'obligation'))
+        elif stats['disagreements']:
+            cid, k, d, ctext = stats['disagree_samples'][0]
+            txt = ('# property %s: correspondence (projection pi-%s) between the Coq model and the implementation broke at case %s step %d\n# %s\n'
+                   % (pid, pid, cid, k, d.replace('\n', '\n# ')) + ctext)
+            rp = write_replay(root, pid, 'correspondence_%s' % cid, txt)
+            res.violations.append(('correspondence pi-%s disagrees at case %s step %d' % (pid, cid, k), rp, False, 'correspondence'))
+
+def decide(root, pid, tier, seed, replay=None):
+    res = Result(pid, tier, seed)
+    b = Build(root)
+    st = b.run()
+    # ---- proof obligations
+    base_obligations(root, pid, res, st)
     # ---- correspondence + monitors
-    stats = dict(cases=0, steps=0, compared=0, disagreements=0, monitor_failures=0, outcomes={}, ops={}, nontrivial=set(), disagree_samples=[])
+    stats = new_stats()
     if pid in PROPS or replay:
         cfg = PROPS.get(pid, dict(profiles=['valid'], n=(500, 5000)))
         if replay:
@@ -488,20 +535,7 @@ def decide(root, pid, tier, seed, replay=None):
                 explore(root, pid, res, gen_text(root, (seed + 7919 * (extra + 1)) * 1000 + pi, 3000, prof, 10 ** 6 * (extra + 1)), 'search%d_%s' % (extra, prof), stats)
             if res.violations:
                 break
-    if not res.violations:
-        if failed_obl:
-            txt = 'property %s: obligations that no longer check on this tree\n' % pid
-            for n, ok, d in failed_obl:
-                txt += '- %s\n    %s\n' % (n, d.replace('\n', '\n    '))
-            txt += '\nno failing input found by the monitors in %d cases / %d steps\n' % (stats['cases'], stats['steps'])
-            rp = write_replay(root, pid, 'obligation', txt)
-            res.violations.append(('obligation failed: ' + failed_obl[0][0], rp, False, 'obligation'))
-        elif stats['disagreements']:
-            cid, k, d, ctext = stats['disagree_samples'][0]
-            txt = ('# property %s: correspondence (projection pi-%s) between the Coq model and the implementation broke at case %s step %d\n# %s\n'
-                   % (pid, pid, cid, k, d.replace('\n', '\n# ')) + ctext)
-            rp = write_replay(root, pid, 'correspondence_%s' % cid, txt)
-            res.violations.append(('correspondence pi-%s disagrees at case %s step %d' % (pid, cid, k), rp, False, 'correspondence'))
+    finish_without_search(root, pid, res, stats)
     res.stats = stats
     return res, st
 
